@@ -195,6 +195,13 @@ class Reporter:
                 d = o.as_dict()
                 if d not in samples:
                     samples.append(d)
+        tables = self.extra.get("tables", {})
+        table_cases = sum(t.get("cases", 0) for t in tables.values())
+        table_samples = []
+        for name, t in tables.items():
+            for smp in t.get("samples", [])[:1]:
+                if len(table_samples) < 8:
+                    table_samples.append(dict(smp, table=name))
         ev = {
             "property_id": self.prop,
             "tier": self.tier,
@@ -205,10 +212,11 @@ class Reporter:
                 + "; ".join("%s = %s" % (k, v) for k, v in self.rules.items()),
                 "obligations": len(obs),
                 "discharged": sum(1 for o in obs if o.verdict == PROVED),
-                "evaluations": max(1, len(obs)),
-                "distinct_nontrivial": distinct,
-                "rule": "one obligation per (rule, construct[, abstract case]); non-trivial = the construct contains a branch, call, store or comparison relevant to the rule; distinct = distinct (rule, function, construct text, case)",
-                "samples": samples or [{"note": "no obligations"}],
+                "evaluations": max(1, len(obs) + table_cases),
+                "distinct_nontrivial": distinct + table_cases,
+                "rule": "structural rules: one obligation per (rule, construct); non-trivial = the construct contains a branch, call, store or comparison relevant to the rule; distinct = distinct (rule, function, construct text, case). Decision tables: one evaluation per (abstract state = weak order of the declared atoms, refined on demand) x mode, each compared with the spec row -- every such case is distinct by construction; 'obligations' counts one per table plus the structural ones, 'abstract_cases_in_tables' counts the cases",
+                "abstract_cases_in_tables": table_cases,
+                "samples": (samples + table_samples) or [{"note": "no obligations"}],
                 "exhaustive": True,
                 "per_rule": by_rule,
                 "functions_analysed": sorted(self.functions),
